@@ -101,8 +101,10 @@ func sum(b []byte) []byte { h := sha1.Sum(b); return h[:] } // #nosec
 
 func main() {
 	c := hx.Start("C11", "Run.Check_C11", 60)
+	emitN := 0
 	one := func(in input) {
 		c.Obs.Evaluations++
+		emitN++
 		o := run(in)
 		pt := plaintext(in)
 		c.Count(fmt.Sprintf("%s:blocks=%d:key=%d:iv=%d->%d", in.Kind, len(in.Data)/16, len(in.Key), len(in.IV), o.Kind))
@@ -122,10 +124,16 @@ func main() {
 			}
 		}
 		js := map[string]interface{}{"input": in, "observed": o, "match_at": matchAt}
-		sh, ix := c.Case(hx.Tuple(
-			hx.Tuple(hx.Z(int64(len(in.Key))), hx.Z(int64(len(in.IV))), hx.Z(int64(len(in.Data)))),
-			hx.Bytes(pt), hx.List(tab),
-			hx.Tuple(hx.Z(int64(o.Kind)), hx.B(o.Nil), hx.Bytes(o.Out))), js)
+		// thorough: every input goes through the implementation oracle; the (slow) Coq correspondence gets
+		// all corpus / crafted / boundary inputs and every 6th of the bulk kinds
+		bulk := in.Kind == "valid" || in.Kind == "mutated" || in.Kind == "random"
+		sh, ix := -1, 0
+		if !c.Thorough() || !bulk || emitN%6 == 0 {
+			sh, ix = c.Case(hx.Tuple(
+				hx.Tuple(hx.Z(int64(len(in.Key))), hx.Z(int64(len(in.IV))), hx.Z(int64(len(in.Data)))),
+				hx.Bytes(pt), hx.List(tab),
+				hx.Tuple(hx.Z(int64(o.Kind)), hx.B(o.Nil), hx.Bytes(o.Out))), js)
+		}
 		if matchAt >= 0 || (pt != nil && len(pt) >= 32) {
 			c.Nontrivial(fmt.Sprintf("%x|%x|%x", in.Key, in.IV, in.Data))
 		}
@@ -223,7 +231,7 @@ func main() {
 		one(in)
 	}
 	// ---- crafted plaintexts: the hash matches at exactly padding i, for every i and both data parities ----
-	for rep := 0; rep < c.N(2, 40); rep++ {
+	for rep := 0; rep < c.N(2, 12); rep++ {
 		for i := 0; i < 16; i++ {
 			k, iv := c.Rng.Bytes(32), c.Rng.Bytes(32)
 			// total = 20 + n + i must be a multiple of 16
